@@ -70,8 +70,9 @@ def run(prog, rep, tier='quick', config='default'):
             continue
         for a in arms:
             acb_arms.setdefault(a, []).append((bb, node, kind))
-        if not arms and not (kind == 'stmt' and node['r']['rv'] == 'use' and any(fl == 'total_acb' for of, fl in mir.place_fields(node['r']['ops'][0]['pl']))
-                             if kind == 'stmt' and is_place(node['r']['ops'][0]) else False):
+        if not arms and not L.is_copy_of_previous_acb(node, kind) and \
+                not (kind == 'stmt' and node['r']['rv'] == 'use' and any(fl == 'total_acb' for of, fl in mir.place_fields(node['r']['ops'][0]['pl']))
+                     if kind == 'stmt' and is_place(node['r']['ops'][0]) else False):
             rep.violation('R1a', 'acb-assigned-outside-arms', where=f.where(node), fn=f.name,
                           detail='the new cost base is assigned outside the five action arms by something other than "start from the previous cost base"')
     gain_arms = {}
@@ -236,7 +237,11 @@ def run(prog, rep, tier='quick', config='default'):
                 if not any(f == 'commission_currency' for (_, f) in org.fields):
                     continue    # not built from a CSV row here
                 n_g += 1
-                bad = [c for c in org.calls if c.short not in TRANSPORT and prog.resolve(c.callee, g.crate) is None]
+                # (only calls that hand back a pair / a currency / a rate can replace it: the text of an error message built next to the
+                # validation — visible when the validating helper is spliced in — cannot)
+                PAIRISH = r'CurrencyAndExchangeRate|model::currency::Currency|rust_decimal::Decimal|ConstrainedDecimal'
+                bad = [c for c in org.calls if c.short not in TRANSPORT and prog.resolve(c.callee, g.crate) is None and
+                       re.search(PAIRISH, g.ty.get(c.dst['l'], '') or '')]
                 k = '%s|commission-pair-reaches-ledger-as-validated' % g.name
                 if bad:
                     rep.violation('R1g', k, where=bad[0].where(), fn=g.name,
